@@ -35,10 +35,17 @@ for t in $TARGETS; do
   done
   # 2. campaign from a fresh copy of the deterministic corpus
   W=fuzz/work/$t; rm -rf $W; mkdir -p $W fuzz/artifacts/$t; cp fuzz/corpus/$t/* $W/
-  timeout 3000 $BIN/$t $W -runs=$RUNS -seed=$SEED -len_control=0 -max_len=8192 -timeout=25 -rss_limit_mb=4096 -artifact_prefix=fuzz/artifacts/$t/ > /tmp/fuzz-run-$$.log 2>&1
+  timeout 3000 $BIN/$t $W -runs=$RUNS -seed=$SEED -len_control=0 -max_len=8192 -timeout=120 -rss_limit_mb=4096 -artifact_prefix=fuzz/artifacts/$t/ > /tmp/fuzz-run-$$.log 2>&1
   code=$?
   if grep -a -q "Test unit written to" /tmp/fuzz-run-$$.log; then
     art=$(grep -a -m1 "Test unit written to" /tmp/fuzz-run-$$.log | sed 's/.*written to //')
+    case "$(basename $art)" in
+      timeout-*|slow-unit-*)
+        # a time budget hit under ASan is never a violation: report it as inconclusive
+        echo "INCONCLUSIVE property=$ID fuzz campaign $t hit the per-input time limit on $art"; exit 2;;
+      oom-*)
+        if [ "$ID" != "C01" ]; then echo "INCONCLUSIVE property=$ID fuzz campaign $t hit the memory limit (see C01)"; exit 2; fi;;
+    esac
     grep -a -m3 -E "ERROR|panicked|VERIF-ORACLE" /tmp/fuzz-run-$$.log | cut -c1-300
     mkdir -p /verif/replays/fuzz/$t/new; cp "$art" /verif/replays/fuzz/$t/new/
     echo "VIOLATION property=$ID replay=/verif/replays/fuzz/$t/new/$(basename $art)"; exit 1
